@@ -2,6 +2,8 @@
 
 mod alloc;
 mod bfs;
+#[cfg(feature = "fin")]
+mod chain;
 mod containers;
 mod containers_gen;
 mod crash;
@@ -406,6 +408,31 @@ fn main() {
                 ("machinery_errors", J::Arr(vec![])),
                 ("found", J::Arr(found)),
                 ("lens_args", J::s("fwd")),
+                ("wall_s", J::n(t0.elapsed().as_secs_f64())),
+            ]);
+            emit(&m, &out, vs.is_empty());
+        },
+        #[cfg(feature = "fin")]
+        "chain" => {
+            let t0 = std::time::Instant::now();
+            alloc::init_thread();
+            let max_n: usize = m.get("max-n").map_or(24, |v| v.parse().expect("bad number"));
+            let (st, vs) = chain::run(max_n);
+            let found: Vec<J> = vs.iter().take(5).map(|v| J::obj(vec![("history", J::s("")), ("history_pretty", J::s(&v.msg)), ("epilogue", J::s("")), ("epilogue_pretty", J::s("")), ("violations", J::Arr(vec![viol_json(v)]))])).collect();
+            let out = J::obj(vec![
+                ("lens", J::s("chain")),
+                ("build", J::s(&build_cfg_name())),
+                ("states", J::n(st.cases as f64)),
+                ("transitions", J::n(st.collects as f64)),
+                ("executions", J::n(st.cases as f64)),
+                ("max_depth_completed", J::n(max_n as f64)),
+                ("fixpoint", J::Bool(true)),
+                ("cut_reason", J::Null),
+                ("samples", J::Arr(st.samples.iter().map(|s| J::s(s)).collect())),
+                ("vacuity", J::obj(vec![("cases", J::n(st.cases as f64)), ("collect_calls", J::n(st.collects as f64)), ("max_tracing_passes_in_one_call", J::n(st.max_episodes as f64)), ("callbacks", J::n(st.callbacks as f64)), ("distinct_outcomes", J::n(st.distinct.len() as f64))])),
+                ("machinery_errors", J::Arr(vec![])),
+                ("found", J::Arr(found)),
+                ("lens_args", J::s(&std::env::args().skip(1).collect::<Vec<_>>().join(" "))),
                 ("wall_s", J::n(t0.elapsed().as_secs_f64())),
             ]);
             emit(&m, &out, vs.is_empty());
